@@ -329,3 +329,6 @@ func (c *Ctx) Dump() {
 		fmt.Printf("  %-4s %s %s @%s %s\n", st, o.Rule, o.Key, o.Pos, o.Msg)
 	}
 }
+
+// Obligations returns the recorded obligations.
+func (c *Ctx) Obligations() []*Obligation { return c.obs }
